@@ -212,11 +212,18 @@ func (s *SoftwrapScanner) Scan(ctx vxfw.DrawContext) bool {
 		// This word is longer than the line. We have to break on
 		// graphemes
 		if wordLen > s.width {
+			if w > 0 {
+				// Start the long word on a line of its own: a part of
+				// it which fits a whole line isn't split then
+				return true
+			}
 			s.rest = []byte{}
 			// Append characters to token until we reach the end
+			full := false
 			for _, char := range wordChars {
-				if w >= s.width {
+				if full || (w > 0 && w+uint16(char.Width) > s.width) {
 					// Append the rest to rest
+					full = true
 					s.rest = append(s.rest, []byte(char.Grapheme)...)
 					continue
 				}
